@@ -172,6 +172,11 @@ def main(argv):
     evdir = os.path.join(VERIF, 'evidence')
     os.makedirs(os.path.join(evdir, 'replay'), exist_ok=True)
     evfile = os.path.join(evdir, pid + '.json')
+    if not args.replay:
+        # replay files describe the violations of *this* run only
+        import glob as _glob
+        for f_ in _glob.glob(os.path.join(evdir, 'replay', '%s-*.json' % pid)):
+            os.remove(f_)
     if args.replay:
         with open(args.replay) as f:
             rp = json.load(f)
